@@ -27,7 +27,7 @@ package destination
 //@   ensures @C01 @C03 @C09 (err == nil) == (keys_and_cert.KacAccepts(data) && PermittedDest(keys_and_cert.WireSigType(data), keys_and_cert.WireCryptoType(data)))
 //@   ensures @C03 err == nil ==> suffix(remainder, data, keys_and_cert.KacExtent(data))
 //@   ensures @C09 @C01 err == nil ==> DestInv(d)
-//@   ensures @C01 err == nil ==> seqeq(keys_and_cert.KacWire(d.KeysAndCert), data[:keys_and_cert.KacExtent(data)])
+//@   ensures @C01 err == nil ==> keys_and_cert.KacMatches(d.KeysAndCert, data)
 //@   ensures @C09 err == nil ==> DestSig(d) == keys_and_cert.WireSigType(data) && DestCrypto(d) == keys_and_cert.WireCryptoType(data)
 //@   ensures err != nil ==> d.KeysAndCert == nil
 //@   modifies nothing
@@ -35,7 +35,7 @@ package destination
 //@ contract NewDestinationFromBytes(data []byte) (d *Destination, remainder []byte, err error)
 //@   ensures @C19 @C09 (err == nil) == (keys_and_cert.KacAccepts(data) && PermittedDest(keys_and_cert.WireSigType(data), keys_and_cert.WireCryptoType(data)))
 //@   ensures @C19 err == nil ==> suffix(remainder, data, keys_and_cert.KacExtent(data))
-//@   ensures @C19 @C09 err == nil ==> d != nil && DestInv(*d) && seqeq(keys_and_cert.KacWire(d.KeysAndCert), data[:keys_and_cert.KacExtent(data)])
+//@   ensures @C19 @C09 err == nil ==> d != nil && DestInv(*d) && keys_and_cert.KacMatches(d.KeysAndCert, data)
 //@   ensures err != nil ==> d == nil
 //@   modifies nothing
 
@@ -50,7 +50,7 @@ package destination
 //@   requires d.KeysAndCert == nil || keys_and_cert.KacInv(d.KeysAndCert)
 //@   ensures fresh(b)
 //@   ensures (err == nil) == (d.KeysAndCert != nil)
-//@   ensures @C01 err == nil ==> seqeq(b, keys_and_cert.KacWire(d.KeysAndCert))
+//@   ensures @C01 err == nil ==> keys_and_cert.KacIsBytes(d.KeysAndCert, b)
 //@   modifies nothing
 
 //@ lemma C01_ReadDestination(data []byte) {
